@@ -449,6 +449,12 @@ fn run_timed(cx: &Ctx, cfg: &EngineConfig, sleep: Duration, h: &[TOp]) {
 fn main() {
     let run = Run::new("C14", "model_checking");
     quiet_panics();
+    // hang breaker: a subject call that never returns (e.g. a self-deadlock) would block the search outside any budget check
+    let hard_limit = run.tier.pick(170, 2700);
+    std::thread::spawn(move || {
+        std::thread::sleep(Duration::from_secs(hard_limit));
+        machinery_exit(&format!("C14: no result after {hard_limit} s — a call into the subject did not return (deadlock?)"));
+    });
     let distinct = Distinct::default();
     let cx = Ctx { run: &run, distinct: &distinct };
 
